@@ -293,6 +293,20 @@ fn page_tokens(d: &FileDump, kt: Kt) -> BTreeMap<u64, String> {
     out
 }
 
+/// `S<id>:<free_space>:<free_space_ptr>:<offset>+<total size>,…` (slot order) for every well-formed B-tree page
+fn slotted_tokens(d: &FileDump) -> BTreeMap<u64, String> {
+    let mut out = BTreeMap::new();
+    for p in &d.pages {
+        if let PageBody::Btree(b) = &p.body {
+            if b.well_formed && b.self_id == p.id {
+                let cells: Vec<String> = b.cells.iter().map(|c| format!("{}+{}", c.offset, c.storage_size - 2)).collect();
+                out.insert(p.id, format!("S{}:{}:{}:{}", p.id, b.free_space, b.free_space_ptr, cells.join(",")));
+            }
+        }
+    }
+    out
+}
+
 // The facade reports payloads as (len, fnv digest); the engine needs (len, seed): re-derive the digest of the pattern.
 trait PayloadId {
     fn payload_bytes_id(&self) -> Option<(u64, u64)>;
@@ -519,6 +533,7 @@ fn exec_seq(c: &SeqCase) -> String {
         }
     }
     let mut prev_tokens: BTreeMap<u64, String> = BTreeMap::new();
+    let mut prev_slotted: BTreeMap<u64, String> = BTreeMap::new();
     let mut prev_free = String::new();
     let mut out: Vec<String> = Vec::with_capacity(c.ops.len() + 1);
     let mut diag_errs: Vec<String> = Vec::new();
@@ -620,6 +635,13 @@ fn exec_seq(c: &SeqCase) -> String {
             }
         }
         prev_tokens = toks;
+        let stoks = slotted_tokens(&d);
+        for (id, tok) in &stoks {
+            if prev_slotted.get(id) != Some(tok) {
+                fields.push(tok.clone());
+            }
+        }
+        prev_slotted = stoks;
         out.push(fields.join(" "));
         if self_bad.is_some() {
             // the judge stops at the first inadmissible observation; whatever the damaged tree does next is not evidence
